@@ -20,6 +20,8 @@ pub enum Kind {
     /// key kinds outermost first; `address_value`: the value is masked to 160 bits
     Mapping(Vec<KeyKind>, bool),
     DynArray,
+    /// a dynamic array whose keccak(slot) the compiler folded into a PUSH constant (optimised solc); slot < 10000
+    DynArrayFolded,
     /// (byte offset, byte width) of every field, ascending
     Packed(Vec<(usize, usize)>),
 }
@@ -144,8 +146,13 @@ fn mapping_key(slot: U, keys: &[KeyKind], sp: &Spelling, first_arg: usize) -> (V
     (t, keys.len())
 }
 
-fn array_key(slot: U, sp: &Spelling, index_arg: usize) -> Vec<Tok> {
-    let hash = vec![pu(slot), p(0), o(op::MSTORE), p(0x20), p(0), o(op::SHA3)];
+fn array_key(slot: U, sp: &Spelling, index_arg: usize, folded: bool) -> Vec<Tok> {
+    let hash = if folded {
+        // minimal-width push, as the optimiser emits it (a digest with a zero top byte fits a PUSH31)
+        vec![pu(crate::util::keccak_words(&[slot]))]
+    } else {
+        vec![pu(slot), p(0), o(op::MSTORE), p(0x20), p(0), o(op::SHA3)]
+    };
     let mut t = Vec::new();
     if sp.index_first {
         t.extend(arg(index_arg));
@@ -335,16 +342,17 @@ pub fn fragments(var: &Var, mode: Mode, sp: &Spelling) -> Vec<Vec<Tok>> {
                 out.push(t);
             }
         }
-        Kind::DynArray => {
+        Kind::DynArray | Kind::DynArrayFolded => {
+            let folded = var.kind == Kind::DynArrayFolded;
             if reads {
-                let mut t = array_key(s, sp, 0);
+                let mut t = array_key(s, sp, 0, folded);
                 t.push(o(op::SLOAD));
                 t.extend(ret_top());
                 out.push(t);
             }
             if writes {
                 let mut t = arg(1);
-                t.extend(array_key(s, sp, 0));
+                t.extend(array_key(s, sp, 0, folded));
                 t.extend([o(op::SSTORE), o(op::STOP)]);
                 out.push(t);
             }
